@@ -10,7 +10,7 @@ Line-protocol handlers for property C18.
                                              items in source order, comma separated (or `-`):
                                              `T:kind:hex:line` code token, `C:hex:line` comment, `E:line` error
 * `c18.comment_text <text>`                → `<hex commentText> <linesCount>`          (Model.commentText)
-* `c18.h18 <text>`                         → `true|false`   (hypothesis of `append_safe_partial`; empty text: `empty`)
+* `c18.long_form <text>`                   → `true|false|empty`   (which branch of `text()` the model takes)
 * `c18.append_safe <text> <src>`           → `true|false`   (the statement `AppendSafeAt text src 1`, decided by running the lexer)
 * `c18.remove_comments <src> <pat>*`       → `code=… comments=… lines=… after=n` of `removeComments LitPat.isMatch pats (toFile src)`
 * `c18.remove_spaces <src>`                → same for `removeSpaces`
@@ -99,11 +99,9 @@ def handle (op : String) (args : List String) : String :=
     match hexToBytes? text with
     | some t => bytesToHex (commentText t) ++ " " ++ toString (linesCount (commentText t))
     | none => "bad-request"
-  | "h18", [text] =>
+  | "long_form", [text] =>
     match hexToBytes? text with
-    | some t =>
-      if t.isEmpty then "empty"
-      else if H18 t then "true" else "false"
+    | some t => if t.isEmpty then "empty" else if useLongForm t then "true" else "false"
     | none => "bad-request"
   | "append_safe", [text, src] =>
     match hexToBytes? text, hexToBytes? src with
